@@ -41,6 +41,16 @@ def handle (op : String) (j : Json) : Except String Json := do
     let m := Json.mkObj [("rows", Json.arr ((matchString pat rows).map boolList).toArray)]
     let s := Json.mkObj [("rows", Json.arr ((spec pat.length (fun win => win == pat) rows).map boolList).toArray)]
     pure (reply m (some s))
+  | "match_same" =>
+    let rows ← getNatListList j "rows"
+    let pat ← getNatList j "pat"
+    let w := pat.length
+    let N := rows.flatten.length
+    -- what the comparison returns on the windows that run past the buffer is unspecified: any tail will do
+    let tail := List.replicate (N - (N + 1 - w)) true
+    let m := Json.mkObj [("rows", Json.arr ((rollingSame w (matchWin pat) false tail rows).map boolList).toArray)]
+    let s := Json.mkObj [("rows", Json.arr ((specSame w (fun win => win == pat) false rows).map boolList).toArray)]
+    pure (reply m (some s))
   | "pwm" =>
     let rows ← getNatListList j "rows"
     let mat := (← getNatListList j "matrix").map (·.map ofBits)
